@@ -81,7 +81,8 @@ def bodyB (B : Backend) (cfg : Cfg) (w : World) (s : SState) (v : Verb) (rest : 
     let w1 := match s.user with
       | some i => { w with userFree := updUser w.userFree i release }
       | none => w
-    let s1 := { s with user := none, logged := false }
+    let s1 := { s with user := none, logged := false,
+                       renameFrom := if userDeletes.contains "rename_from" then none else s.renameFrom }
     let (code, u, lg) := getUser cfg w1 rest
     let w2 := match u with
       | some i => { w1 with userFree := updUser w1.userFree i acquire }
